@@ -581,7 +581,9 @@ def compare(ctx, world, model_out, label):
             return False
         mstate, _, mwaits = ms.partition(" || waits ")
         mwaits, _, stale = mwaits.partition(" || stale=")
+        stale, _, quiet = stale.partition(" || quiet=")
         world.model_stale = (stale == "1")
+        world.model_quiet = quiet          # "10" = quiescentb, not quiescent_eagerb, ...
         mw = ",".join("".join(sorted(set(x))) for x in mwaits.split(",")) if mwaits else ""
         if mstate != rs:
             ok = False
@@ -619,6 +621,14 @@ def gen_case(rng, profile, quick=True):
         c["iters"] = 120
     if profile in ("bulk", "close") and rng.random() < 0.3:
         c["latency"] = False
+    if profile == "reuse":
+        # an application that goes away mid-download (its socket stops accepting data and reports
+        # end-of-stream) while the destination still has a lot queued towards it, followed at once by
+        # new connections: frames of the old flow are still on the way when identifiers are handed out again
+        nflows = rng.randint(2, 5)
+        c["iters"] = 90
+        if rng.random() < 0.3:
+            c["maxc"] = rng.choice([1, 2, 3, 65535])
     for i in range(nflows):
         def size():
             if big:
@@ -634,6 +644,11 @@ def gen_case(rng, profile, quick=True):
                 app["data"] = 0
             if rng.random() < 0.3:
                 dst["connect"] = ["p"] * rng.randint(2, 8) + ["d"]
+        if profile == "reuse" and i == 0:
+            app = {"tag": 1, "data": rng.choice([0, 1, 50]), "close": True, "p_recv": 1.0,
+                   "fault": ("send", rng.randint(0, 4), rng.choice([errno.EPIPE, errno.ECONNRESET])), "faulty": True}
+            dst = {"tag": 2, "data": rng.choice([32769, 65536, 100000]), "close": rng.random() < 0.5, "connect": ["d"],
+                   "p_recv": 1.0, "chunks": [2048, 4096, 65536]}
         if profile == "fault" and rng.random() < 0.75:
             kind = rng.choice(["refused", "recv", "send", "recv", "send", "shutdown"])
             who = rng.choice([app, dst])
@@ -818,6 +833,16 @@ def stream_check(ctx, prop, profiles, n_quick, n_thorough):
         for w, out in zip(batch, outs):
             ok = compare(ctx, w, out, {"seed": w.case["seed"], "profile": w.case["profile"], "case": w.case})
             orc = check_oracles(w)
+            if ok and not w.crash:
+                calm = getattr(w, "calm", 0) >= 3
+                mq = getattr(w, "model_quiet", "?")
+                ctx.count("end_state_%s_model_quiet_%s" % ("calm" if calm else "busy", mq))
+                # the model's notion of "nothing is pending" (StreamQuiet.quiescentb, about which the
+                # quiescence theorems speak) must be the real loops' notion (select has nothing ready
+                # under the eager environment, three rounds in a row)
+                if mq[:1] in "01" and calm != (mq[:1] == "1"):
+                    ctx.disagree("stream: real loops are %s but the model's quiescentb is %s" % ("calm" if calm else "busy", mq[:1]),
+                                 {"seed": w.case["seed"], "profile": w.case["profile"], "case": w.case}, calm, mq)
             for what, detail in orc.get(prop, []):
                 rep = {"case": w.case, "detail": detail, "events": len(w.log)}
                 if detail.get("finding_id"):
